@@ -234,6 +234,8 @@ func runC05(ctx *Ctx) {
 	defer dd.run(ctx)
 	mr := newCorr("mediarender")
 	defer mr.run(ctx)
+	pc := newPipeCorr()
+	defer pc.run(ctx)
 	ctx.Rep.Rule = "pages whose every element may carry on*, id, class, style, data-* and unknown attributes, over all retained kinds (paragraphs, lists, images, figures+captions, videos, data tables, embeds) and with script/style children inside tables, captions and tweets; distinct by structure; non-trivial = at least one retained element carried a forbidden attribute in the source"
 	contentRun{id: "C05", n: [2]int{300, 12000}, url: pageURL,
 		weights: []W{{"para", 30}, {"heading", 4}, {"list", 8}, {"quote", 4}, {"datatable", 8}, {"figure", 8}, {"img", 8}, {"video", 6}, {"embed", 8}, {"script", 4}, {"divwrap", 6}, {"pre", 2}},
@@ -264,6 +266,7 @@ func runC05(ctx *Ctx) {
 			addRenderCases(tr, nil, ctx.Rep, x.Src, pageURL, replay, 6)
 			addDedupeCase(dd, x.Src, replay)
 			addMediaRenderCases(mr, ctx.Rep, x.Src, pageURL, replay)
+			pc.add(ctx, x.D, x.Root, true, replay)
 		},
 		extra: func(ctx *Ctx, i int, r *Rng) []string {
 			g := newPageGen(r)
@@ -282,13 +285,17 @@ func runC05(ctx *Ctx) {
 			foreign := func() string {
 				raw := r.Pick("xmp", "noembed", "noframes", "iframe", "noscript", "plaintext", "style", "script")
 				payload := r.Pick(`&lt;script&gt;alert(1)&lt;/script&gt;`, `&lt;img src=x onerror=alert(2)&gt;`, `&lt;p id=injected class=c style=color:red onclick=x()&gt;`+g.word()+`&lt;/p&gt;`)
-				return r.Pick("<svg>", "<math>", "<svg><g>", "<math><mrow>") + "<" + raw + ">" + payload + "</" + raw + ">" + r.Pick("</svg>", "</math>", "")
+				if r.Chance(50) {
+					// character data that first "closes" the element it sits in
+					payload = "&lt;/" + raw + "&gt;" + r.Pick("", "&lt;/li&gt;&lt;/ul&gt;", "&lt;/math&gt;", "&lt;/svg&gt;") + payload
+				}
+				return r.Pick("<svg>", "<math>", "<svg><g>", "<math><mrow>", "<math><mi>") + "<" + raw + ">" + payload + "</" + raw + ">" + r.Pick("</svg>", "</math>", "")
 			}
 			body2 := "<p>" + g.words(40) + "</p>" +
 				"<table><caption>" + g.words(2) + foreign() + "</caption><tr><th>" + g.words(1) + "</th><th>" + g.words(1) + "</th></tr><tr><td>" + g.words(2) + foreign() + "</td><td>" + g.words(2) + "</td></tr><tr><td>" + g.words(1) + "</td><td>" + g.words(1) + "</td></tr></table>" +
 				"<p>" + g.words(40) + "</p>" +
 				`<blockquote class="twitter-tweet"><p>` + g.words(4) + `</p>` + foreign() + `<a href="https://twitter.com/u/status/124">d</a></blockquote>` +
-				"<p>" + g.words(40) + "</p><figure>" + g.img() + "<figcaption>" + g.words(3) + foreign() + ` <a href="x">` + g.words(1) + "</a></figcaption></figure><p>" + g.words(30) + " " + foreign() + "</p><p>" + g.words(30) + "</p>"
+				"<p>" + g.words(40) + "</p><figure>" + g.img() + "<figcaption>" + g.words(3) + foreign() + ` <a href="x">` + g.words(1) + "</a></figcaption></figure><p>" + g.words(30) + " " + foreign() + "</p><ul><li>" + g.words(25) + " " + foreign() + " " + g.words(5) + "</li><li>" + g.words(20) + "</li></ul><p>" + g.words(30) + "</p>"
 			return []string{"<html><head><title>t</title></head><body>" + body + "</body></html>", "<html><head><title>t</title></head><body>" + body2 + "</body></html>"}
 		},
 		oracle: func(ctx *Ctx, x *distilled, replay interface{}) bool {
@@ -373,7 +380,7 @@ func runC07(ctx *Ctx) {
 			addRenderCases(tr, do, ctx.Rep, x.Src, pageURL, replay, 6)
 			addOutputNodesCase(on, x.Src, replay)
 		},
-		weights: []W{{"para", 25}, {"shortpara", 8}, {"list", 25}, {"quote", 15}, {"pre", 6}, {"datatable", 6}, {"img", 4}, {"figure", 3}, {"links", 6}, {"divwrap", 6}, {"embed", 3}, {"heading", 3}, {"oddtext", 8}},
+		weights: []W{{"para", 25}, {"shortpara", 8}, {"list", 25}, {"quote", 15}, {"pre", 6}, {"datatable", 6}, {"img", 4}, {"figure", 3}, {"links", 6}, {"divwrap", 6}, {"embed", 3}, {"heading", 3}, {"oddtext", 8}, {"inlinenest", 8}},
 		oracle: func(ctx *Ctx, x *distilled, replay interface{}) bool {
 			deep, partial := oracleC07(ctx.Rep, x, replay)
 			ctx.Rep.histN("retained-words-depth>=2", deep)
@@ -447,7 +454,7 @@ func checkPlainAtoms(ctx *Ctx, x *distilled, replay interface{}) {
 		for _, e := range els {
 			a := distiller.VerifElementAtoms(e)
 			ctx.Rep.hist("plain-atoms-checked")
-			if a.StyleDisplay != "" || a.VisHidden || a.Byline || a.Unlikely || !a.Visible {
+			if a.StyleDisplay != "" || a.VisHidden || a.Byline || a.Unlikely || !a.Visible || distiller.VerifIsForeignRawText(e) {
 				ctx.Rep.mismatch("premise:PlainAtoms", replay, "all tests false on an attribute-free inline element", fmt.Sprintf("<%s>: %+v", e.Data, a))
 			}
 		}
